@@ -315,3 +315,111 @@ def h_ct_offset(segsize: int, segnum: int, seglen: int) -> bool:
     if list(nd.ciphertext_hash_tree.leaves.items()) != [(segnum, ("cth", segment))]:
         return "ciphertext leaf index/hash wrong"
     return True
+
+
+# ---- share layout: writer (layout.py) vs reader (downloader/share.py) ----------------
+
+from allmydata.util.spans import DataSpans
+
+layout.struct = FakeStruct
+share_mod.struct = FakeStruct
+_satisfy_offsets = hlib.strip_logs(share_mod.Share._satisfy_offsets)
+_satisfy_data_block = hlib.strip_logs(share_mod.Share._satisfy_data_block)
+hlib.encoded(layout.make_write_bucket_proxy, layout.WriteBucketProxy.__init__, layout.WriteBucketProxy._create_offsets,
+             layout.WriteBucketProxy_v2._create_offsets, layout.WriteBucketProxy.get_allocated_size,
+             layout.WriteBucketProxy.put_block, mathutil.next_power_of_k)
+NOTES += ["struct in immutable.layout and downloader.share replaced by FakeStruct (field lists with real sizes/range checks)",
+          "WriteBucketProxy._queue_write replaced by a recorder of (offset, data) (write batching not exercised)",
+          "isinstance(data, bytes) in layout.put_block accepts provenance buffers"]
+_real_isinstance = isinstance
+layout.isinstance = lambda o, t: True if (t is bytes and _real_isinstance(o, ProvBuf)) else _real_isinstance(o, t)
+HS = 32
+
+
+def h_layout(bs: int, tb: int, ns: int, nsh: int, uebsize: int, segnum: int) -> bool:
+    """
+    pre: 1 <= tb <= bs and 1 <= ns <= B["ns_max"] and 0 <= nsh <= 20 and 0 <= uebsize <= 2**20 and 0 <= segnum < ns
+    pre: bs <= B["bs_max"]
+    post: _ == True
+    """
+    data_size = (ns - 1) * bs + tb
+    writes = []
+
+    class _W(layout.WriteBucketProxy):
+        def _queue_write(self, offset, data):
+            writes.append((offset, data))
+            return defer.succeed(False)
+
+    class _W2(layout.WriteBucketProxy_v2):
+        def _queue_write(self, offset, data):
+            writes.append((offset, data))
+            return defer.succeed(False)
+    saved = (layout.WriteBucketProxy, layout.WriteBucketProxy_v2)
+    layout.WriteBucketProxy, layout.WriteBucketProxy_v2 = _W, _W2
+    try:
+        wbp = layout.make_write_bucket_proxy(None, None, data_size, bs, ns, nsh, uebsize)
+    finally:
+        layout.WriteBucketProxy, layout.WriteBucketProxy_v2 = saved
+    o = wbp._offsets
+    v2 = isinstance(wbp, _W2)
+    hdr = 0x44 if v2 else 0x24
+    eff = 1
+    while eff < ns:
+        eff = eff * 2
+    hsz = (2 * eff - 1) * HS
+    want = {"data": hdr, "plaintext_hash_tree": hdr + data_size, "crypttext_hash_tree": hdr + data_size + hsz,
+            "block_hashes": hdr + data_size + 2 * hsz, "share_hashes": hdr + data_size + 3 * hsz,
+            "uri_extension": hdr + data_size + 3 * hsz + nsh * (2 + HS)}
+    if o != want:
+        return "section offsets do not tile the share"
+    if wbp.get_allocated_size() != want["uri_extension"] + (8 if v2 else 4) + uebsize:
+        return "allocated size wrong"
+    small = bs < 2 ** 32 and data_size < 2 ** 32 and want["uri_extension"] - 0x24 + 0x24 < 2 ** 32
+    # v1 must be used exactly when everything fits 32 bits (v1 offsets are computed with the 0x24 header)
+    v1_end = 0x24 + data_size + 3 * hsz + nsh * (2 + HS)
+    fits_v1 = bs < 2 ** 32 and data_size < 2 ** 32 and v1_end < 2 ** 32
+    if v2 == fits_v1:
+        return "layout version choice wrong"
+    # reader parses the header the writer produced
+    sh = share_mod.Share.__new__(share_mod.Share)
+    sh._lp = 0
+    sh.had_corruption = False
+    sh._received = DataSpans()
+    sh._received.add(0, wbp._offset_data)
+    if len(wbp._offset_data) != hdr:
+        return "header size"
+    try:
+        if _satisfy_offsets(sh) is not True:
+            return "reader did not accept the writer's header"
+    except hlib.FieldMisaligned as e:
+        return "reader reads header fields at other positions/widths than the writer wrote: %s" % (e,)
+    if sh.actual_offsets != want or sh._fieldsize != (8 if v2 else 4):
+        return "reader's offsets differ from writer's"
+    # block addressing
+    blen = tb if segnum == ns - 1 else bs
+    wbp.put_block(segnum, ProvBuf.src("blk", blen, 0))
+    (woff, wdata) = writes[-1]
+    got = []
+    sh._node = hlib.NS(num_segments=ns, block_size=bs, tail_block_size=tb)
+    sh._commonshare = hlib.NS(check_block=lambda sn, blk: got.append((sn, blk)))
+    sh._requested_blocks = [(segnum, None)]
+    sh._received = DataSpans()
+    total = wbp.get_allocated_size()
+    sh._received.add(0, ProvBuf.src("share", total, 0))
+    notes = []
+    obs = hlib.NS(notify=lambda **kw: notes.append(kw))
+    saved_ds = share_mod.DataSpans
+    try:
+        r = _satisfy_data_block(sh, segnum, [obs])
+    finally:
+        share_mod.DataSpans = saved_ds
+    if len(got) != 1 or got[0][0] != segnum:
+        return "check_block not called for the block"
+    blk = got[0][1]
+    if len(blk) != blen or blk.at(0) != ("share", woff):
+        return "reader fetches a different range than the writer wrote"
+    if woff != hdr + segnum * bs or woff + blen > want["plaintext_hash_tree"]:
+        return "block written outside the data section"
+    if len(notes) != 1 or notes[0].get("block") is not blk:
+        return "delivered block is not the checked block"
+    return True
